@@ -81,8 +81,11 @@ def run_driver(wd, label, cases, timeout_ms=20000):
             break
         if r.returncode == 3:
             hangs += 1
-            if hangs > 20:
-                raise vlib.ToolError("more than 20 hangs: giving up")
+            if hangs >= 6:
+                # every hang is already recorded as an observation (and will be judged a violation by LifecycleTrace);
+                # driving the remaining cases would only add 20 s of watchdog per further hang
+                vlib.log("%d hangs recorded: the remaining %d cases of `%s` are not driven" % (hangs, len(cases) - done, label))
+                break
             continue
         # the process died (stack overflow / abort): the case being run is a crash
         crashed = cases[done] if done < len(cases) else None
@@ -92,7 +95,7 @@ def run_driver(wd, label, cases, timeout_ms=20000):
             f.write(json.dumps({"id": crashed["id"], "mode": crashed.get("mode"), "generator": crashed.get("generator"), "rules": crashed.get("rules"),
                                 "label": crashed.get("label"), "events": ["panic"], "msg": "process aborted (exit %s): %s" % (r.returncode, r.stderr[-200:])}) + "\n")
         done += 1
-    return op
+    return op, done
 
 
 def run(tier):
@@ -167,7 +170,8 @@ def run(tier):
     for r in [r for r in vlib.pinned_reproducers(PID) if "src" in r or "srcb" in r]:
         cases.append(dict({"mode": "parse", "label": "pinned", "generator": "", "rules": []}, **r))
     cases.append({"id": "reg-surrogate", "mode": "parse", "src": "return \"\\u{D800}\"", "label": "regression", "generator": "", "rules": []})
-    op = run_driver(rep.wd, "main", cases)
+    op, driven = run_driver(rep.wd, "main", cases)
+    cases = cases[:driven]          # after repeated hangs the tail is not driven (see run_driver)
     v = tlc("trace/LifecycleTrace", workers=12, timeout=3000, env={"OBS": op}, xmx="16g")
     tlc_ok(v, "LifecycleTrace")
     verdicts = {x["id"]: x for x in v.tagged("VERDICT")}
@@ -207,7 +211,7 @@ def replay(path, tier):
     rep = Report(PID, tier, "exploration")
     with open(path) as f:
         c = json.load(f)["case"]
-    op = run_driver(rep.wd, "replay", [c])
+    op, _ = run_driver(rep.wd, "replay", [c])
     v = tlc("trace/LifecycleTrace", workers=1, timeout=600, env={"OBS": op})
     tlc_ok(v, "LifecycleTrace")
     obs = {o["id"]: o for o in read_ndjson(op)}
